@@ -9,6 +9,8 @@ from ..valgen import Gen, copy_value
 from ..condgen import CondGen
 from ..terms import Leaf, Null, Bin, valida
 from ..specgen import SpecGen, normalise_cond, d12_flag
+from ..rulegen import RuleGen
+from ..pathterms import PathT
 
 PROP = "C02"
 IMPORTS = "Py Lang Defs Cond Dsl Check DocSem Inst"
@@ -173,11 +175,49 @@ def spec_route(sg, t, doc, spec_viol, counts):
                           "doc": jval(doc), "operators": repr(want)[:200], "spec_list": repr(got)[:200]})
 
 
+def source_route(g, rg, cg, doc, viol, counts):
+    """With source data: a combination whose operands hold data-path arguments gives, item by item, the Boolean combination of what
+    each operand gives WITH THE SAME SOURCE DATA (every operand sees the source document, wherever it sits in the tree)."""
+    d2 = copy_value(doc)
+    t = cg.tree(d2, depth=g.r.choice([1, 2, 2, 3]), classes=["Value", "Value", "ValueLength", "ValueDataType"], null_p=0.1)
+    for _ in range(g.r.randint(1, 2)):
+        t = rg.with_path_arg(t, d2)
+
+    def has_path(x):
+        return isinstance(x, PathT) or (isinstance(x, (list, tuple)) and any(isinstance(i, PathT) for i in x)) or \
+            (isinstance(x, dict) and any(isinstance(i, PathT) for i in x.values()))
+    if not any(has_path(a) for l in t.leaves() for a in list(l.args) + list(l.kwargs.values())):
+        return
+
+    def pointwise(term):
+        if isinstance(term, Null):
+            return None
+        if isinstance(term, Leaf):
+            return list(term.build().filter(copy_value(d2), source_data=d2).result)
+        a, b = pointwise(term.a), pointwise(term.b)
+        if a is None:
+            return b
+        if b is None:
+            return a
+        f = {"and": lambda x, y: x and y, "or": lambda x, y: x or y, "xor": lambda x, y: x != y}[term.op]
+        return [f(x, y) for x, y in zip(a, b)]
+    want = E.run_outcome(lambda: pointwise(t))
+    got = E.run_outcome(lambda: list(t.build().filter(copy_value(d2), source_data=d2).result))
+    if want[0] != "ok" or want[1] is None:
+        return
+    counts["source"] += 1
+    if got != want:
+        viol.append({"kind": "source-data", "what": "with source data, a combination does not give the Boolean combination of what its "
+                     "operands give with the same source data", "descr": t.descr()[:300], "doc": jval(d2),
+                     "combination": repr(got)[:200], "operands_combined": repr(want)[:200]})
+
+
 def run(tier, seed, model_ok, spec_ok, replay=None):
     g = Gen(seed)
     cg = CondGen(g)
     hist_viol, hist_steps, hist_n = [], 0, 0
     sg = SpecGen(g)
+    rg = RuleGen(cg)
     spec_viol, counts = [], Counter()
     if replay and replay["case"].get("kind") != "history":
         j = replay["case"]
@@ -203,6 +243,8 @@ def run(tier, seed, model_ok, spec_ok, replay=None):
             cases.append(make_case(t, doc))
             # the spec-list route: {"and": [a, b, ...]} (same-operator spines flattened) gives what the operators give
             spec_route(sg, t, doc, spec_viol, counts)
+            if g.r.random() < 0.3:
+                source_route(g, rg, cg, doc, spec_viol, counts)
         cases = [c for c in cases if c]
         nh = 150 if tier == "quick" else 4000
         for _ in range(nh):
@@ -218,7 +260,7 @@ def run(tier, seed, model_ok, spec_ok, replay=None):
         dist["outcome:" + (c.outcome[1] if c.outcome[0] == "exc" else "ok")] += 1
     distinct = {c.key for c in cases if c.nontrivial}
     res = {
-        "evaluations": len(cases) + hist_steps, "k_cases": nk, "o_cases": no + hist_steps + counts["spec"],
+        "evaluations": len(cases) + hist_steps, "k_cases": nk, "o_cases": no + hist_steps + counts["spec"] + counts["source"],
         "nontrivial": len(distinct),
         "rule": "random and/or/xor trees (depth <= 4 quick / 6 thorough, null operands with p=0.2 in every position, "
                 "value-kind mixed with key- or index-kind) x documents, plus construction histories over a pool of "
@@ -227,7 +269,7 @@ def run(tier, seed, model_ok, spec_ok, replay=None):
         "samples": [c.descr for c in cases[-3:]],
         "k_mismatch": [cases[i].descr for i in k_bad],
         "o_violations": [cases[i].descr for i in o_bad] + hist_viol + spec_viol,
-        "distribution": dict(dist, histories=hist_n, history_steps=hist_steps, spec_lists=counts["spec"]),
+        "distribution": dict(dist, histories=hist_n, history_steps=hist_steps, spec_lists=counts["spec"], with_source_data=counts["source"]),
     }
     if err:
         res["k_mismatch"] = res["k_mismatch"] or [{"coq-eval-error": err}]
